@@ -375,6 +375,18 @@ impl<'a> TextExtractor<'a> {
                     }
                 },
                 (OpType::TextShow, "TJ") => {
+                    if args.len() != op_args.len() {
+                        let msg = format!(
+                            "content stream {:?}: unexpected number {} of args for {}, {} expected",
+                            self.objectid,
+                            args.len(),
+                            op_name,
+                            op_args.len()
+                        );
+                        let err = ErrorKind::GuardError(msg);
+                        let end = buf.get_cursor();
+                        return Err(LocatedVal::new(err, start, end))
+                    }
                     if let Some(o) = args.pop() { match o.val() {
                         CSObjT::Array(array) => {
                             for o in array.objs() {
